@@ -12,17 +12,59 @@ BASELINE = (
 )
 
 # id -> (technique, level text, level note, design ref)
+EXPL = "held on the executions observed (counts in the evidence), not a proof"
 CHECKS = {
-    "C11": (
-        "runtime oracle monitor over the exhaustively enumerated calendar + icontract class invariant on Dekad + accessor/scalar differential",
-        "Every one of the 3,652,059 dates and 359,964 dekads is pushed through the real Dekad class and each public "
-        "attribute/operator observation is compared with an oracle built from calendar.monthrange; an icontract invariant "
-        "watches the class during a contract shard and the .time.dekad accessor is compared element-wise. The space is "
-        "finite and enumerated completely, so for the scalar class this is as strong as observation gets; integer offsets "
-        "are a hostile sample.",
-        "trusts calendar.monthrange/datetime; offsets n sampled from a fixed hostile set; accessor axes sampled (ns range 1678-2261)",
-        "DESIGN.md §3 C11",
-    ),
+    "C01": ("exact-rational execution of the kernel's code object + residual oracle; compiled-vs-exact float64 monitor classified by condition number; settrace state tap on the LDL' pivots",
+            "The unchanged code object of ws2d is executed on Fractions and the residual (W+lam D'D)z - Wy, assembled from the definition, must be exactly zero for every executed (n, y, w, lam): all 0/1 weight patterns for n=4..10 and structured/random cases to n=150; the compiled float64 result is compared with the exact solution (1e-6) up to n=400. " + EXPL,
+            "Fraction arithmetic; numpy eigvalsh for the condition number used to classify exceedances (known finding C01:ill-conditioned); identity is per executed case, not for symbolic n", "DESIGN.md §3 C01"),
+    "C02": ("metamorphic pair monitor on the real kernels (placeholder re-encodings incl. NaN/inf) + threshold classes + gap-fill oracle",
+            "Each (series, mask) is run through all nine smoother configurations under 4-9 placeholder encodings; band and lambda must be identical, gap cells must carry the independently solved curve, and both sides of each valid-count threshold are observed. " + EXPL,
+            "placeholders never collide with valid data; differences are excused only when the curve leaves int16 (outside the claim)", "DESIGN.md §3 C02"),
+    "C03": ("boundary monitor with two reference models (replica on the compiled core, independent LAPACK solve) on gufuncs and accessor",
+            "ws2dgu/ws2dpgu/whits outputs are compared bit-for-bit with a replica of the stated algorithm on the repository's ws2d and, with a measured tie tolerance, with an independent banded-Cholesky solve, over thousands of series/lambda/p incl. gaps, lambda=0, sgrid with -inf, all dim orders. " + EXPL,
+            "C01 for the core solver in tier 1; SciPy LAPACK in tier 2; int16-range exclusion counted", "DESIGN.md §3 C03"),
+    "C04": ("boundary monitor: midpoint/optimality oracles (replica + dense V-curve), self-consistency against the real fixed-lambda kernels, grid-choice differential incl. prange driver",
+            "Reported lambda must be a grid midpoint, minimise the recomputed V-curve (two solvers, tie rules), the band must equal ws2dgu/ws2dpgu at that lambda bit-for-bit, and ws2doptvplc / ws2doptvplc_tyx must use the documented grid for every lc incl. NaN and 0.5+ulp. " + EXPL,
+            "criterion-degenerate cases (noise-level V-curve) only held to midpoint/self-consistency and counted", "DESIGN.md §3 C04"),
+    "C05": ("boundary monitor + settrace state tap on the interpreted kernel (MAD base, final robust weights), degenerate-input classes, compiled-vs-interpreted differential",
+            "Non-robust: grid membership, GCV optimality (two solvers), band == fixed-lambda kernel. Robust: lambda on grid, MAD taken over valid weighted cells (tapped), final weights finite/in [0,1]/zero on gaps/>=2 positive, band is the curve of exactly those weights, constant/linear/flat-with-spikes inputs not zeroed, compiled == interpreted. " + EXPL,
+            "tap reads locals of the interpreted run of the same code object; grids restricted to lambda in 10**[-6,8] (C01 range)", "DESIGN.md §3 C05"),
+    "C06": ("metamorphic pair monitors (offset, reversal, linear series) over all nine configurations with measured rounding-tie rule",
+            "Pairs of real kernel runs on (y,nodata)/(y+c,nodata+c)/reversed y and exactly linear series; a +-1 difference is accepted only where the unrounded curves (replica or tapped) sit on a rounding tie, a different lambda only at a recomputed criterion tie. " + EXPL,
+            "ill-conditioned pairs (curve disagreement >= 0.05) and int16-range exclusions are counted, not compared", "DESIGN.md §3 C06"),
+    "C07": ("boundary monitor against an independent SciPy (thorough: mpmath) evaluation of the definition with an interval oracle for the fit statistic",
+            "gammafit/gammastd/gammastd_yxt/gammastd_grp/spi outputs for int16/float32/float64 pixels are compared cell by cell with Phi^-1(p0+(1-p0)G(x;alpha,beta)) from an independent ML fit; admissible perturbations of the fit statistic (single-precision logs, Brent tolerance) define the accepted interval. " + EXPL,
+            "SciPy special functions (shared family with the code) cross-checked by mpmath in the thorough tier; |SPI|>7 left to C08", "DESIGN.md §3 C07"),
+    "C08": ("boundary monitors (order, saturation, NaN, nodata, isolation) on hostile pixels and mixed cubes; exceptions observed per call",
+            "Outliers up to 1e6x / down to 1e-300x the calibration mean, low-variance windows and every bad-pixel class alone and inside cubes: output must be monotone in the observation, saturate with the right sign, never be NaN-derived, keep nodata, not raise, and leave neighbours unchanged. " + EXPL,
+            "expected indices from the C07 oracle; constant / single-valid pixels only required not to raise and to map equal inputs to equal outputs", "DESIGN.md §3 C08"),
+    "C09": ("icontract post-conditions on the helper functions installed in the accessor namespace + compositional accessor oracle + relabelling pairs",
+            "Every spi() call of the workload passes through contracts asserting that the returned index ranges are exactly {t: begin<=t<=end} (per group) and that to_linspace is a dense order-preserving relabelling; results are compared with per-group ungrouped SPI, attrs with first/last step, invalid windows must raise ValueError only. " + EXPL,
+            "ungrouped kernel taken as reference (C07/C08)", "DESIGN.md §3 C09"),
+    "C10": ("reference model from the definition (exact integers) over exhaustively enumerated tie patterns + metamorphic pairs + accessor monitor",
+            "All weak orderings of length 2..6 (quick; ..7 thorough) in int16 and float32 through both gufunc wrappers, the yxt driver and the njit function, random series to length 200, and invariance/antisymmetry pairs. " + EXPL,
+            "float32 resolution of stored outputs; p within 5e-16 absolute of the float64 formula", "DESIGN.md §3 C10"),
+    "C11": ("runtime oracle monitor over the exhaustively enumerated calendar + icontract class invariant on Dekad + accessor/scalar differential",
+            "Every one of the 3,652,059 dates and 359,964 dekads is pushed through the real Dekad class and each public attribute/operator observation is compared with an oracle built from calendar.monthrange; an icontract invariant watches the class during contract shards and the .time.dekad accessor is compared element-wise. The space is finite and enumerated completely; integer offsets are a hostile sample.",
+            "trusts calendar.monthrange/datetime; offsets n from a fixed hostile set; accessor axes sampled (ns range 1678-2261)", "DESIGN.md §3 C11"),
+    "C15": ("reference model from the definition (float64 and exact rationals) + range/affine/encoding/layout monitors",
+            "autocorr_1d (int/nodata and float/NaN), autocorr, autocorr_tyx and the accessor in both layouts are compared with the Pearson r of the mean-filled vectors over random, outage, leading/trailing and heavy gap patterns. " + EXPL,
+            "|x| <= 9000 so integer sums are exact; float tolerance scales with max|x|^2 n / SSD", "DESIGN.md §3 C15"),
+    "C16": ("exact integer reference model + permutation pairs + large-zone workloads",
+            "do_mean and zonal.mean are compared with exact sums/counts for 1..1000 zones, every nodata share, NaN through the accessor, and single zones of 1e5, 1e6, 1.7e7 (thorough 2.5e7) pixels; pixel rearrangement must not change the result beyond the output precision. " + EXPL,
+            "np.bincount float64 sums exact for integer data", "DESIGN.md §3 C16"),
+    "C17": ("exhaustive enumeration through the real gufuncs against a per-position reference model + placeholder re-encoding pairs",
+            "All series over a 4-symbol alphabet up to length 7 (thorough 8) x all windows x dtypes x three nodata encodings for rolling_sum; all labelings (k<=3) for mean_grp; random long series and accessors. " + EXPL,
+            "mixed windows may legitimately return nodata or the valid sum", "DESIGN.md §3 C17"),
+    "C18": ("exhaustive enumeration (all binary series to length 16) + structured long runs + permutation workloads against a groupby reference",
+            "lroo on all 131,070 binary series, runs of 254..600 in series up to 1000 steps (kernel and accessor), croo under all / random stored time orders. " + EXPL,
+            "binary uint8 input", "DESIGN.md §3 C18"),
+    "C19": ("reference model (window enumeration) against recorded generator output; exhaustive small axes + off-axis label classes",
+            "Every (n, begin, end) on axes of length 1..7 (thorough 1..12) for sum/mean/full, time and non-time dims, NaN cubes; off-axis labels with all lookup methods must raise ValueError exactly when not locatable. " + EXPL,
+            "independent label-location model (exact / nearest / ffill / bfill)", "DESIGN.md §3 C19"),
+    "C20": ("reference model (independent daily solve, exact rationals for short records) + constant/linear metamorphic classes + input-hash monitor",
+            "tinterpolate/whitint outputs are compared with period means of an independently solved daily curve for 5..400 observations, regular/irregular marks, dekad/pentad/month/random labelings up to ~4000 days. " + EXPL,
+            "tie tolerance from the measured solver disagreement", "DESIGN.md §3 C20"),
 }
 
 NOT_YET = {}
